@@ -178,6 +178,10 @@ def work(chunk):
                         b = calc(birth.isoformat(), match, cat)
                         if a != b:
                             acc.bad('%s:iso-string-differs-from-date' % cat, dict(birth=birth, match=match, category=cat), 'date -> %r, string -> %r' % (a, b))
+                        if birth.year >= 1000:
+                            b2 = calc(birth.strftime('%Y%m%d'), match, cat)          # ISO 8601 basic format
+                            if a != b2:
+                                acc.bad('%s:iso-string-differs-from-date' % cat, dict(birth=birth, match=match, category=cat, form='YYYYMMDD'), 'date -> %r, string -> %r' % (a, b2))
                     except Exception as e:
                         acc.bad('%s:iso-string-raises-%s' % (cat, type(e).__name__), dict(birth=birth, match=match, category=cat), repr(e))
                 for o in OPTS:
